@@ -54,6 +54,7 @@ class Interp(ExprMixin, StmtMixin):
         self.body_has_effects = True
         self.handling = []
         self._const_stack = []
+        self.loop_entry_stack = []
         self.cur_line = self.fnode.lineno
         self.unsupported = None
         self.dropped = set()
@@ -234,6 +235,9 @@ class Interp(ExprMixin, StmtMixin):
             if path in R.CONTRACTS:
                 return self.apply_contract(R.CONTRACTS[path], args, kwargs, node)
             ext = R.EXTERNALS.get(path)
+            if isinstance(ext, R.ExtFn):
+                return ext.f(self, args, kwargs, node)
+            ext = R.EXTERNALS.get(path + ".__call__")
             if isinstance(ext, R.ExtFn):
                 return ext.f(self, args, kwargs, node)
             # a repo class being instantiated / an exception class
@@ -471,6 +475,8 @@ class Interp(ExprMixin, StmtMixin):
         """Evaluate a callee's clause in the callee's parameter environment and module."""
         st = self.st
         saved_env, saved_h0, saved_e0 = st.env, st.heap0, self.effects0
+        saved_ce = getattr(self, "_callee_entry", None)
+        self._callee_entry = env
         st.env = dict(env)
         if heap_before is not None:
             st.heap0 = heap_before
@@ -480,6 +486,7 @@ class Interp(ExprMixin, StmtMixin):
             return self.spec_eval(clause)
         finally:
             st.env, st.heap0, self.effects0 = saved_env, saved_h0, saved_e0
+            self._callee_entry = saved_ce
 
     # ------------------------------------------------------------- builtins
     def b_len(self, args, kwargs, node):
@@ -789,6 +796,7 @@ class Interp(ExprMixin, StmtMixin):
         self.yielded = ZV(L.EMPTY_SEQ, "seq")
         self.body_raised = False
         self.handling = []
+        self.loop_entry_stack = []
         a = self.fnode.args
         allp = [x.arg for x in a.posonlyargs + a.args + a.kwonlyargs]
         if a.vararg:
